@@ -279,7 +279,34 @@ pub fn q3_suback_packet_len(s: &mut Src) {
     }
     done(pkt);
 }
+pub fn r1_poll_all_connack(s: &mut Src) {
+    let a = s.u8(); let b = s.u8();
+    let frame = [0x20u8, 2, a, b];
+    let (r, used, maxreq) = fe::v3::poll_all(&frame);
+    match r {
+        Ok((t, body, p)) => { vassert!(a <= 1 && b <= 5 && t == 4 && used == 4, "P|r1|x"); vcover!(true, "acc"); done(p); done(body); }
+        Err(e) => { vassert!(a > 1 || b > 5, "P|r1|y"); vcover!(true, "rej"); done(e); }
+    }
+}
+pub fn r2_poll_all_publish(s: &mut Src) {
+    let a = s.u8(); let b = s.u8(); let pid = s.u16();
+    let frame = [0x32u8, 6, 0, 1, a, (pid >> 8) as u8, (pid & 0xff) as u8, b];
+    set_classes(usize::MAX, usize::MAX, usize::MAX);
+    let (r, used, maxreq) = fe::v3::poll_all(&frame);
+    match r {
+        Ok((t, body, p)) => { vassert!(pid != 0 && t == 8 && used == 8, "P|r2|x"); vcover!(true, "acc"); done(p); done(body); }
+        Err(e) => { vassert!(pid == 0, "P|r2|y"); vcover!(true, "rej"); done(e); }
+    }
+}
 scenarios! {
+    #[kani::unwind(8)]
+    #[kani::stub(<mqtt_proto_sync::Error as std::convert::From<std::io::Error>>::from, crate::model::from_io_eof_stub)]
+    probe_r1_poll_all_connack [2] => r1_poll_all_connack;
+    #[kani::unwind(8)]
+    #[kani::stub(<mqtt_proto_sync::Error as std::convert::From<std::io::Error>>::from, crate::model::from_io_eof_stub)]
+    #[kani::stub(simdutf8::basic::from_utf8, crate::model::from_utf8_class_stub)]
+    #[kani::stub(mqtt_proto_sync::TopicName::is_invalid, crate::model::topic_name_class_stub)]
+    probe_r2_poll_all_publish [4] => r2_poll_all_publish;
     #[kani::unwind(8)]
     probe_q1_suback_body [3] => q1_suback_body;
     #[kani::unwind(8)]
